@@ -170,14 +170,65 @@ class Acc(object):
 # ---------------------------------------------------------------------------
 # deterministic parallel map
 
+class EvoCrash(Exception):
+    """The code under test raised an exception that no check anticipated on
+    an input for which the property demands a result (or a documented
+    refusal that the check does catch).  Reported as a violation."""
+
+    def __init__(self, info, shard=None):
+        Exception.__init__(self, info.get("msg"))
+        self.info = info
+        self.shard = shard
+
+
+_OS_LAYER = ("mc/engine/vfs.py", "mc/engine/vsched.py")
+
+
+def classify_exception(exc):
+    """Decide whether an uncaught exception comes from the code under test:
+    walk the traceback from the innermost frame outwards, skipping library
+    frames (numpy, stdlib, ...) and the frames of the virtual OS layer (they
+    stand in for the operating system); the first remaining frame is either
+    evo's (-> dict describing the crash) or the harness' (-> None)."""
+    import traceback
+    if type(exc).__name__ == "HarnessError":
+        return None
+    repo = os.path.realpath(os.environ.get("EVO_VERIF_REPO") or "/repo")
+    verif = os.path.realpath(os.path.join(os.path.dirname(__file__), "..",
+                                          ".."))
+    frames = traceback.extract_tb(exc.__traceback__)
+    for fr in reversed(frames):
+        fn = os.path.realpath(fr.filename)
+        if fn.startswith(repo + os.sep):
+            rel = fn[len(repo) + 1:]
+            text = "%s: %s" % (type(exc).__name__, str(exc)[:200])
+            return {
+                "type": type(exc).__name__,
+                "where": "%s:%s" % (rel, fr.name),
+                "msg": "evo raised %s at %s line %d (%s) - no result and not "
+                       "one of the refusals the check anticipates" %
+                       (text, rel, fr.lineno, fr.name),
+                "traceback": "".join(traceback.format_exception(
+                    type(exc), exc, exc.__traceback__))[-3000:],
+            }
+        if fn.startswith(verif + os.sep):
+            if fn[len(verif) + 1:] in _OS_LAYER:
+                continue
+            return None
+    return None
+
+
 def _call(packed):
     modname, funcname, arg = packed
     import importlib
     mod = importlib.import_module(modname)
     try:
         return getattr(mod, funcname)(arg)
-    except Exception:
+    except Exception as e:
         import traceback
+        info = classify_exception(e)
+        if info is not None:
+            return ("__evo_crash__", info, repr(arg)[:500])
         return ("__error__", traceback.format_exc(), repr(arg)[:500])
 
 
@@ -205,9 +256,12 @@ def shutdown():
         _POOL = None
 
 
-def pmap(ctx, modname, funcname, args, chunksize=1):
+def pmap(ctx, modname, funcname, args, chunksize=1, crash_ok=False):
     """Run modname.funcname(arg) for every arg on the worker pool; results are
-    returned in argument order (deterministic, independent of scheduling)."""
+    returned in argument order (deterministic, independent of scheduling).
+    An exception raised by the code under test (see classify_exception) ends
+    the run as EvoCrash unless crash_ok (then the marker tuple is returned in
+    place of the shard's result)."""
     from mc.runner import HarnessError
     args = list(args)
     packed = [(modname, funcname, a) for a in args]
@@ -215,9 +269,18 @@ def pmap(ctx, modname, funcname, args, chunksize=1):
         results = [_call(p) for p in packed]
     else:
         results = pool(ctx.jobs).map(_call, packed, chunksize)
-    for r in results:
+    for a, r in zip(args, results):
         if isinstance(r, tuple) and len(r) == 3 and r[0] == "__error__":
             raise HarnessError("worker failed on %s:\n%s" % (r[2], r[1]))
+    for a, r in zip(args, results):
+        if crash_ok:
+            break
+        if isinstance(r, tuple) and len(r) == 3 and r[0] == "__evo_crash__":
+            import base64
+            import pickle
+            raise EvoCrash(r[1], {
+                "mod": modname, "fn": funcname,
+                "arg": base64.b64encode(pickle.dumps(a)).decode()})
     return results
 
 
@@ -230,10 +293,21 @@ def pmap_acc(ctx, modname, funcname, args, chunksize=1):
     import pickle
     args = list(args)
     acc = Acc()
-    for a, r in zip(args, pmap(ctx, modname, funcname, args, chunksize)):
+    for a, r in zip(args, pmap(ctx, modname, funcname, args, chunksize,
+                               crash_ok=True)):
+        tag = {"mod": modname, "fn": funcname,
+               "arg": base64.b64encode(pickle.dumps(a)).decode()}
+        if isinstance(r, tuple) and len(r) == 3 and r[0] == "__evo_crash__":
+            # the shard died in the code under test: one violation; whatever
+            # else the shard would have covered is not counted
+            info = r[1]
+            r = Acc()
+            r.count("shards_ended_by_uncaught_exception")
+            r.violation("crash", info["msg"],
+                        {"traceback": info["traceback"]},
+                        {"kind": "uncaught-exception", "type": info["type"],
+                         "where": info["where"]})
         if r.vlist:
-            tag = {"mod": modname, "fn": funcname,
-                   "arg": base64.b64encode(pickle.dumps(a)).decode()}
             for lst in r.vlist.values():
                 for v in lst:
                     v.setdefault("shard", tag)
